@@ -200,6 +200,62 @@ theorem findLast_empty_needle (h : List Nat) : findLastLoop h [] (h.length + 1) 
     · have := d h.length (by omega) (Nat.le_refl _)
       simp [List.isPrefixOf] at this
 
+/-! ### findLastOf -/
+
+/-- `r` is the last offset whose char is in `cs` -/
+def LastOf (h cs : List Nat) : Option Nat → Prop
+  | none => ∀ x ∈ h, x ∉ cs
+  | some i => ∃ hi : i < h.length, h[i] ∈ cs ∧ ∀ j (hj : j < h.length), i < j → h[j] ∉ cs
+
+def LastOfBelow (h cs : List Nat) (pos : Nat) : Option Nat → Prop
+  | none => ∀ j (hj : j < h.length), j < pos → h[j] ∉ cs
+  | some i => ∃ hi : i < h.length, i < pos ∧ h[i] ∈ cs ∧ ∀ j (hj : j < h.length), i < j → j < pos → h[j] ∉ cs
+
+theorem findLastOfLoop_spec (h cs : List Nat) : ∀ (fuel pos : Nat) (res : Option Nat),
+    pos ≤ h.length → h.length + 1 ≤ fuel + pos → LastOfBelow h cs pos res →
+    LastOf h cs (findLastOfLoop h cs fuel pos res)
+  | 0, pos, res, hp, hf, _ => by omega
+  | fuel + 1, pos, res, hp, hf, inv => by
+    simp only [findLastOfLoop]
+    cases hs : strpbrkL (h.drop pos) cs with
+    | none =>
+      simp only
+      have nn := strpbrk_none hs
+      have tail : ∀ j (hj : j < h.length), pos ≤ j → h[j] ∉ cs := by
+        intro j hj hpj
+        apply nn
+        have : h[j] = (h.drop pos)[j - pos]'(by simp only [List.length_drop]; omega) := by
+          rw [List.getElem_drop]; congr 1; omega
+        rw [this]; exact List.getElem_mem _
+      cases res with
+      | none =>
+        intro x hx
+        obtain ⟨j, hj, rfl⟩ := List.getElem_of_mem hx
+        by_cases c : j < pos
+        · exact inv j hj c
+        · exact tail j hj (by omega)
+      | some i =>
+        obtain ⟨hi, a, b, d⟩ := inv
+        refine ⟨hi, b, ?_⟩
+        intro j hj hij
+        by_cases c : j < pos
+        · exact d j hj hij c
+        · exact tail j hj (by omega)
+    | some k =>
+      simp only
+      obtain ⟨hk, a, b⟩ := strpbrk_some hs
+      simp only [List.length_drop] at hk
+      have hidx : pos + k < h.length := by omega
+      have ea : (h.drop pos)[k]'(by simp only [List.length_drop]; omega) = h[pos + k] := by
+        rw [List.getElem_drop]
+      apply findLastOfLoop_spec h cs fuel (pos + k + 1) (some (pos + k)) (by omega) (by omega)
+      refine ⟨hidx, by omega, by rw [← ea]; exact a, ?_⟩
+      intro j hj hj1 hj2
+      omega
+
+theorem findLastOf_spec (h cs : List Nat) : LastOf h cs (findLastOfLoop h cs (h.length + 1) 0 none) :=
+  findLastOfLoop_spec h cs (h.length + 1) 0 none (Nat.zero_le _) (by omega) (by intro j hj hj2; omega)
+
 /-! ### compare -/
 
 /-- on NUL-free strings `compare` is zero exactly for equal strings … -/
